@@ -364,10 +364,12 @@ def recv_name(v):
     return type(v).__name__
 
 
-def native_ok(cls, v, path='arg', multi_ok=False):
+def native_ok(cls, v, path='arg', width=True):
     """THE PROPERTY, on the real classes: None, or an instance of the native type of the declared model
-    (a subclass instance where a complex type is declared), or a list of such.  Returns None when fine,
-    else (path, declared, received) for the first offending node."""
+    (a subclass instance where a complex type is declared), or a list of such.  [width]: also demand that
+    integers lie within the declared width (what a validator enforces; off for validator=None, where the
+    property only speaks of types).  Returns None when fine, else (path, declared, received) for the first
+    offending node."""
     from spyne.model.complex import Array, ComplexModelBase, XmlAttribute
     from spyne.model import primitive as P
     from spyne.model.binary import ByteArray
@@ -385,7 +387,7 @@ def native_ok(cls, v, path='arg', multi_ok=False):
             return bad()
         (m,) = cls._type_info.values()
         for i, x in enumerate(v):
-            r = native_ok(m, x, '%s[%d]' % (path, i))
+            r = native_ok(m, x, '%s[%d]' % (path, i), width)
             if r:
                 return r
         return None
@@ -402,18 +404,18 @@ def native_ok(cls, v, path='arg', multi_ok=False):
                 if type(x) is not list:
                     return ('%s.%s' % (path, k), 'list of ' + decl_name(t), recv_name(x) + ':' + repr(x)[:60])
                 for i, y in enumerate(x):
-                    r = native_ok(t, y, '%s.%s[%d]' % (path, k, i))
+                    r = native_ok(t, y, '%s.%s[%d]' % (path, k, i), width)
                     if r:
                         return r
             else:
-                r = native_ok(t, x, '%s.%s' % (path, k))
+                r = native_ok(t, x, '%s.%s' % (path, k), width)
                 if r:
                     return r
         return None
     if issubclass(cls, P.Integer):
         if not isinstance(v, int):
             return bad()
-        if not cls.validate_native(cls, int(v)):           # the declared width (hardware bounds of the class itself)
+        if width and not cls.validate_native(cls, int(v)):           # the declared width (hardware bounds of the class itself)
             return bad()
         return None
     if issubclass(cls, P.Double):
@@ -789,7 +791,7 @@ def corr_xml(check, tier):
                     check.count(('xml', soft, parse, etree.tostring(doc)))
                     if o[0] == 'ok':
                         nv = from_native(cls2, o[1])
-                        bad = native_ok(cls, o[1])
+                        bad = native_ok(cls, o[1], width=soft)
                         if bad:
                             check.fail(xml_key('from_element', 'XmlDocument', 'soft' if soft else None, muts, bad),
                                        'XmlDocument(validator=%s).from_element delivered %s where %s is declared (at %s) for %s'
@@ -846,7 +848,7 @@ def judge_call(check, kind, prot_name, val, param_classes, res, muts, replay):
         return
     args = res[1]
     for i, (pc, a) in enumerate(zip(param_classes, args)):
-        bad = native_ok(pc, a, 'p%d' % i)
+        bad = native_ok(pc, a, 'p%d' % i, width=val is not None)
         if bad:
             check.fail(xml_key(kind, prot_name, val, muts, bad),
                        '%s(validator=%r): the service function received %s where %s is declared (at %s)' % (
@@ -1452,6 +1454,96 @@ def oracle_dict(check, tier):
                             break
 
 
+# ====================================================================== HttpRpc (flat key/value documents, WSGI GET)
+def wsgi_get(app_wsgi, path, qs):
+    status = []
+    env = {'REQUEST_METHOD': 'GET', 'PATH_INFO': path, 'QUERY_STRING': qs, 'SERVER_NAME': 'localhost', 'SERVER_PORT': '80',
+           'SCRIPT_NAME': '', 'wsgi.url_scheme': 'http', 'wsgi.input': io.BytesIO(b''), 'wsgi.errors': io.StringIO(),
+           'wsgi.version': (1, 0), 'wsgi.multithread': False, 'wsgi.multiprocess': False, 'wsgi.run_once': False,
+           'CONTENT_LENGTH': '0', 'SERVER_PROTOCOL': 'HTTP/1.1'}
+    out = app_wsgi(env, lambda st, hd, exc=None: status.append(st))
+    body = b''.join(out)
+    if hasattr(out, 'close'):
+        out.close()
+    return (status[0] if status else '?'), body
+
+
+def oracle_http(check, tier):
+    """HttpRpc: query strings built from the flat path table of the request message class
+    (get_simple_type_info), valid values and hostile ones, indices, duplicates, 'empty' markers"""
+    from urllib.parse import quote
+    from spyne.protocol.http import HttpRpc
+    from spyne.protocol.json import JsonDocument
+    from spyne.server.wsgi import WsgiApplication
+    rng = check.rng
+    n_univ = 4 if tier == 'quick' else 24
+    n_docs = 50 if tier == 'quick' else 160
+    prims = tuple(p for p in RICH_PRIMS if p != 'bytes')
+    for ui in range(n_univ):
+        desc = gen_desc(rng, rng.randint(2, 5), prims=prims, allow_attr=False)
+        classes = build_spyne(desc)
+        n = len(classes)
+        params = [rng.choice([('prim', rng.choice(prims)), ('ref', rng.randrange(n)), ('arr', ('ref', rng.randrange(n))),
+                              ('arr', ('prim', rng.choice(prims)))]) for _ in range(rng.randint(1, 3))]
+        params += [('ref', n - 1)]
+        for val in ('soft', None):
+            prot = HttpRpc(validator=val)
+            app, cap, in_msg = build_app(classes, params, prot, JsonDocument())
+            wsgi = WsgiApplication(app)
+            pcs = list(in_msg._type_info.values())
+            sti = in_msg.get_simple_type_info_with_prot(in_msg, prot, hier_delim='.')
+            keys = sorted(sti.keys())
+            for di in range(n_docs // (1 if val == 'soft' else 3)):
+                mp = 0.0 if di == 0 else rng.choice([0.05, 0.2, 0.5])
+                pairs, muts = [], []
+                for k in keys:
+                    if rng.random() < 0.5:
+                        continue
+                    m = sti[k]
+                    t = class_to_ty(classes, m.type)
+                    reps = rng.randint(1, 3) if m.is_array else 1
+                    for r in range(reps):
+                        key = k
+                        if t is not None and t[0] == 'prim':
+                            text = leaf_text(gen_leaf(rng, t[1]))
+                        else:
+                            text = 'empty'
+                        if rng.random() < mp:
+                            text = rng.choice(HOSTILE_TEXT + ['empty'])
+                            muts.append('%s=%s' % (k, text))
+                        if m.is_array or rng.random() < mp:
+                            segs = key.split('.')
+                            j = rng.randrange(len(segs))
+                            segs[j] = '%s[%d]' % (segs[j], rng.choice([0, 0, 1, 2, 10, r]))
+                            key = '.'.join(segs)
+                        if rng.random() < mp:
+                            key = rng.choice([key.rsplit('.', 1)[0], key + '.zz', key + '[0]', key.upper()])
+                            muts.append('key %s' % key)
+                        pairs.append((key, text))
+                        if rng.random() < mp:
+                            pairs.append((key, text))
+                            muts.append('dup %s' % key)
+                rng.shuffle(pairs)
+                qs = '&'.join('%s=%s' % (quote(k, safe='[].'), quote(v, safe='')) for k, v in pairs)
+                del cap.calls[:]
+                try:
+                    status, body = wsgi_get(wsgi, '/f', qs)
+                except Exception as e:
+                    continue
+                check.count(('oracle-http', val, qs))
+                if not cap.calls:
+                    continue
+                args = cap.calls[-1]
+                for i, (pc, a) in enumerate(zip(pcs, args)):
+                    bad = native_ok(pc, a, 'p%d' % i, width=val is not None)
+                    if bad:
+                        check.fail(dict_key('HttpRpc', val, bad),
+                                   'HttpRpc(validator=%r): the service function received %s where %s is declared (at %s); GET /f?%s'
+                                   % (val, bad[2], bad[1], bad[0], qs),
+                                   {'kind': 'http-request', 'validator': val, 'universe': desc, 'params': params, 'query': qs, 'mutations': muts})
+                        break
+
+
 # ====================================================================== run
 def run(check):
     tier = check.tier
@@ -1479,10 +1571,91 @@ def run(check):
     corr_dict(check, tier)
     lib.flush_correspondences(check)
     oracle_dict(check, tier)
+    oracle_http(check, tier)
     return check.finish()
 
 
+def _eval_doc(text):
+    return eval(text, {'__builtins__': {}}, {'nan': float('nan'), 'inf': float('inf')})
+
+
+def _retuple(x):
+    """JSON turned the tuples of the neutral forms into lists"""
+    if isinstance(x, list):
+        return tuple(_retuple(y) for y in x) if x and isinstance(x[0], str) and x[0] in ('prim', 'ref', 'arr') else [_retuple(y) for y in x]
+    if isinstance(x, dict):
+        return dict((k, _retuple(v)) for k, v in x.items())
+    return x
+
+
 def replay(check, path):
-    r = json.load(open(path))
-    print(json.dumps(r, indent=1)[:4000])
+    """re-runs the recorded input against the implementation; exit status 1 iff the violation reproduces"""
+    lib.ensure_repo_on_path()
+    logging.disable(logging.CRITICAL)
+    rec = json.load(open(path))
+    r = rec.get('replay', {})
+    print('key :', rec.get('key'))
+    print('what:', rec.get('what'))
+    kind = r.get('kind')
+    if kind is None:
+        print(json.dumps(r, indent=1)[:4000])
+        return 1 if r.get('broken') else 0
+    if kind == 'reader':
+        prot = make_prot(r['protocol'], 'soft', False)
+        print('reader:', observe(prot.from_unicode, prim_class(r['prim']), r['text']))
+        return 1
+    desc = _retuple(r['universe'])
+    classes = build_spyne(desc)
+    bad = None
+    if kind in ('xml-request', 'dict-request', 'http-request'):
+        params = _retuple(r['params'])
+        val = r.get('validator')
+        if kind == 'xml-request':
+            from spyne.protocol.xml import XmlDocument
+            from spyne.protocol.soap import Soap11
+            pcls = {'XmlDocument': XmlDocument, 'Soap11': Soap11}[r['protocol']]
+            app, cap, in_msg = build_app(classes, params, pcls(validator=val), pcls())
+            res = drive(app, r['body'].encode(), cap)
+        elif kind == 'dict-request':
+            prot = make_prot(r['protocol'], val, r['wrappers'])
+            app, cap, in_msg = build_app(classes, params, prot, type(prot)())
+            res = drive(app, encode_body(r['protocol'], _eval_doc(r['document'])), cap)
+        else:
+            from spyne.protocol.http import HttpRpc
+            from spyne.protocol.json import JsonDocument
+            from spyne.server.wsgi import WsgiApplication
+            app, cap, in_msg = build_app(classes, params, HttpRpc(validator=val), JsonDocument())
+            try:
+                st = wsgi_get(WsgiApplication(app), '/f', r['query'])
+            except Exception as e:
+                st = ('exception', type(e).__name__)
+            res = ('called', cap.calls[-1]) if cap.calls else ('not called', st)
+        print('result:', res[0], [recv_name(a) + ':' + repr(a)[:80] for a in res[1]] if res[0] == 'called' else res[1:])
+        if res[0] == 'called':
+            for i, (pc, a) in enumerate(zip(in_msg._type_info.values(), res[1])):
+                bad = bad or native_ok(pc, a, 'p%d' % i, width=val is not None)
+    elif kind == 'xml-object':
+        from lxml import etree
+        from spyne.protocol.xml import XmlDocument
+        params = _retuple(r['params'])
+        prot = XmlDocument(validator='soft' if r['soft'] else None, parse_xsi_type=r['parse'])
+        app, cap, in_msg = build_app(classes, params, prot)
+        cls = (classes + [in_msg])[r['cid']]
+        o = observe(prot.from_element, types.SimpleNamespace(app=app), cls, etree.fromstring(r['document'].encode()))
+        print('result:', o[0], (recv_name(o[1]) + ':' + repr(o[1])[:200]) if o[0] == 'ok' else o[1:])
+        if o[0] == 'ok':
+            bad = native_ok(cls, o[1], width=r['soft'])
+    elif kind == 'dict-object':
+        ty = _retuple(r['type'])
+        prot = make_prot(r['protocol'], 'soft', r['wrappers'])
+        app, cap, in_msg = build_app(classes, [('ref', i) for i in range(len(classes))], prot, type(prot)())
+        cls = ty_class(classes, ty)
+        o = observe(prot._from_dict_value, None, 'k', cls, _eval_doc(r['document']), prot.validator)
+        print('result:', o[0], (recv_name(o[1]) + ':' + repr(o[1])[:200]) if o[0] == 'ok' else o[1:])
+        if o[0] == 'ok':
+            bad = native_ok(cls, o[1])
+    if bad:
+        print('VIOLATION reproduced: received %s where %s is declared (at %s)' % (bad[2], bad[1], bad[0]))
+        return 1
+    print('not reproduced: every value delivered has its declared type (or the request was refused)')
     return 0
